@@ -197,7 +197,6 @@ def subsets(positions, kmax):
 
 
 TS_POOL = [(3, 4), (6, 8), (2, 2), (12, 8), (4, 4), (9, 8), (5, 4), (3, 8), (7, 8), (1, 4)]
-KS_FIFTHS = [-7, -1, 0, 3, 7]
 KS_MODES = ["major", "minor", None]
 
 
@@ -223,7 +222,7 @@ def gen_ts(L, t0s, pool, kmax, frame="note"):
 
 def ks_values(kind):
     if kind == "all":
-        return [(f, m) for f in KS_FIFTHS for m in KS_MODES] + [(2, "none")]
+        return [(f, m) for f in range(-7, 8) for m in KS_MODES] + [(2, "none")]
     if kind == "pool6":
         return [(-7, "minor"), (3, None), (0, "major"), (7, "minor"), (-1, None), (-1, "major")]
     if kind == "pool4":
